@@ -755,6 +755,21 @@ func mentionsCall(e Expr, name string) bool {
 	return found
 }
 
+// mentionsQualifiedCall: the expression calls pkg.name (pkg: last element of a package path).
+func mentionsQualifiedCall(e Expr, pkg, name string) bool {
+	found := false
+	walkExpr(e, func(x Expr) {
+		if c, ok := x.(ECall); ok {
+			if sel, ok := c.Fn.(ESel); ok && sel.Name == name {
+				if id, ok := sel.X.(EIdent); ok && id.Name == pkg {
+					found = true
+				}
+			}
+		}
+	})
+	return found
+}
+
 func walkExpr(e Expr, f func(Expr)) {
 	if e == nil {
 		return
